@@ -413,6 +413,7 @@ where
             if proof.opening.columns.len() != t
                 || proof.opening.paths.len() != t
                 || proof.opening.v.len() != n_cols
+                || proof.opening.columns.iter().any(|c| c.len() != n_rows)
             {
                 return Err(Error::InvalidCommitment);
             }
